@@ -479,14 +479,20 @@ def _first_use_body(name, full=False):
 
 def sched_curve(curve, nthreads, bound, acc, only_prefix=None, max_exec=None, full=False):
     from Crypto.PublicKey import _point, _nist_ecc, _edwards, _montgomery, ECC  # noqa (pre-import: import lock stays outside)
-    names = [curve, CURVE_ALIASES[curve], curve][:nthreads]
+    if "+" in curve:
+        # first use of two DIFFERENT curves at the same time (both loads update the one registry dict)
+        ca, cb = curve.split("+")
+        names = [ca, cb, CURVE_ALIASES[ca]][:nthreads]
+    else:
+        names = [curve, CURVE_ALIASES[curve], curve][:nthreads]
     seq_expected = [_first_use_body(n, full)() for n in names]
     pts = {("PublicKey/_point.py", "__getitem__")}
     if full:
         pts.add(("PublicKey/_point.py", "load"))
     sched = pysched.Scheduler(pts)
     real_lock = _point._Curves.curves_lock
-    family = [n for n in _point._Curves.all_names if n in getattr(_point._Curves, curve + "_names")]
+    family = [n for n in _point._Curves.all_names
+              if any(n in getattr(_point._Curves, c + "_names") for c in curve.split("+"))]
     outcomes = {}
     state = {"fail": None}
 
@@ -502,6 +508,7 @@ def sched_curve(curve, nthreads, bound, acc, only_prefix=None, max_exec=None, fu
         acc.count("transitions", len(ex.points))
         res = tuple(ex.results.get(t) for t in range(nthreads))
         objs = {id(_point._Curves.curves[n]) for n in family if n in _point._Curves.curves}
+        ncurves = len(curve.split("+"))
         problem = None
         if ex.deadlock:
             problem = "deadlock"
@@ -509,8 +516,8 @@ def sched_curve(curve, nthreads, bound, acc, only_prefix=None, max_exec=None, fu
             problem = "exception " + "; ".join("thread %d: %s" % kv for kv in sorted(ex.errors.items()))
         elif list(res) != seq_expected:
             problem = "results differ from sequential execution"
-        elif len(objs) != 1:
-            problem = "%d distinct curve objects registered for one curve" % len(objs)
+        elif len(objs) != ncurves:
+            problem = "%d distinct curve objects registered for %d curve(s)" % (len(objs), ncurves)
         okey = "ok" if problem is None else problem.split(":")[0][:60]
         outcomes[okey] = outcomes.get(okey, 0) + 1
         order = tuple(t for k, t in ex.log if k == "acq")[:2]
@@ -713,6 +720,8 @@ def run(ctx):
         sh.append([(c, 2, 2, None, False)])
     for c in (("p256", "ed25519", "curve25519") if q else curves):
         sh.append([(c, 3, 1 if q else 2, 4000 if q else 40000, False)])
+    for c in (("p256+ed25519", "p384+curve448") if q else ("p256+ed25519", "p384+curve448", "p521+p192", "ed448+curve25519", "p224+ed448")):
+        sh.append([(c, 2, 2, None, False)])
     if not q:
         for c in ("p256", "ed448", "curve448"):
             sh.append([(c, 2, 2, 40000, True)])
